@@ -315,3 +315,95 @@ FILTER_POOL = [
     ["-F", "^second_part$", "-N", "^builtins\\.print$"], ["-N", "^pkg\\.core\\."], ["-F", "^pkg\\.core\\.fact$"],
     ["-F", "^helper\\.Acc\\.add$"], ["-N", "^builtins\\.exec$"], ["-F", "^rules\\.", "-N", "^helper\\.leaf$"],
 ]
+
+
+# ---------------------------------------------------------------- projects that fork
+# The processes of one run share nothing but what they inherited: a function that is called for the
+# first time in a forked child (after the parent has exited, or while it waits) is as much a call of the
+# script as any other.  Variants: the parent waits / the parent exits first (daemon style: the child
+# blocks on a pipe until the parent is gone) / double fork (the middle process exits at once, the
+# grandchild goes on after both are gone) / multiprocessing.Process (fork start method).
+FORK_VARIANTS = ["wait", "parent-first", "double", "mp", "parent-first", "double"]
+
+FORK_HELPER = '''def shared(x):
+    return x + 1
+
+
+def %(late_mod_fn)s(x):
+    return [x, shared(x)]
+
+
+class Late:
+    def __init__(self, v):
+        self.v = v
+
+    def %(late_method)s(self):
+        return self.v * 2
+'''
+
+LATE_BUILTINS = ["divmod(17, 5)", "abs(-3)", "hex(255)", "round(2.6)", "bin(5)", "oct(9)", "chr(65)", "ord('a')",
+                 "pow(2, 5)", "hash(7)", "ascii('x')", "callable(len)"]
+
+
+def gen_fork_project(rng, idx, variant=None):
+    """-> {"files", "features", "variant", "rc", "late": [names first called in a child]}"""
+    variant = variant or rng.choice(FORK_VARIANTS)
+    tag = "%d%s" % (idx, rng.choice("abcdefgh"))
+    late_mod_fn = "late_pair_" + tag
+    late_method = "dbl_" + tag
+    files = {"forkhelper.py": FORK_HELPER % {"late_mod_fn": late_mod_fn, "late_method": late_method}}
+    nearly = rng.randint(1, 3)
+    nlate = rng.randint(2, 5)
+    builtins = rng.sample(LATE_BUILTINS, rng.randint(1, 3))
+    rc = rng.choice([0, 0, 3])
+    m = ["#!/usr/bin/env python3", "import os", "import sys"]
+    if variant == "mp":
+        m.append("import multiprocessing")
+    m += ["import forkhelper", "", ""]
+    for i in range(nearly):
+        m += ["def early_%d(x):" % i, "    return forkhelper.shared(x) + %d" % i, "", ""]
+    late = []
+    for i in range(nlate):
+        nm = "late_%s_%d" % (tag, i)
+        late.append(nm)
+        callee = "late_%s_%d(x) + 1" % (tag, i - 1) if i and rng.random() < 0.6 else "x * %d" % (i + 2)
+        m += ["def %s(x):" % nm, "    return %s" % callee, "", ""]
+    m += ["def wait_parent_gone(fd):", "    # end of file = every process that held the other end has exited",
+          "    while os.read(fd, 1):", "        pass", "    os.close(fd)", "", ""]
+    work = ["def child_work(n):", "    out = []"]
+    order = list(range(nlate))
+    rng.shuffle(order)
+    for i in order:
+        work.append("    out.append(late_%s_%d(n))" % (tag, i))
+    if rng.random() < 0.8:
+        work.append("    out.append(forkhelper.%s(n))" % late_mod_fn)
+        late.append("forkhelper." + late_mod_fn)
+    if rng.random() < 0.7:
+        work.append("    out.append(forkhelper.Late(n).%s())" % late_method)
+        late += ["forkhelper.Late.__init__", "forkhelper.Late." + late_method]
+    for b in builtins:
+        work.append("    out.append(%s)" % b)
+    work += ["    out.append(early_0(n))", "    print('child', out)", "    sys.stdout.flush()", "    return len(out)", "", ""]
+    m += work
+    m += ["print('early', [%s])" % ", ".join("early_%d(%d)" % (i, rng.randint(0, 9)) for i in range(nearly)),
+          "sys.stdout.flush()"]
+    n = rng.randint(1, 9)
+    child_end = rng.choice(["os._exit(0)", "sys.exit(0)", "os._exit(0)"])
+    if variant == "wait":
+        m += ["pid = os.fork()", "if pid == 0:", "    child_work(%d)" % n, "    " + child_end,
+              "_, st = os.waitpid(pid, 0)", "print('parent', os.WEXITSTATUS(st))"]
+    elif variant == "parent-first":
+        m += ["r, w = os.pipe()", "pid = os.fork()", "if pid == 0:", "    os.close(w)", "    wait_parent_gone(r)",
+              "    child_work(%d)" % n, "    " + child_end, "os.close(r)", "print('parent leaves')", "sys.stdout.flush()"]
+    elif variant == "double":
+        m += ["r, w = os.pipe()", "pid = os.fork()", "if pid == 0:", "    if os.fork() != 0:", "        os._exit(0)",
+              "    os.close(w)", "    wait_parent_gone(r)", "    child_work(%d)" % n, "    " + child_end,
+              "os.close(r)", "os.waitpid(pid, 0)", "print('parent leaves')", "sys.stdout.flush()"]
+    else:
+        m += ["multiprocessing.set_start_method('fork')", "p = multiprocessing.Process(target=child_work, args=(%d,))" % n,
+              "p.start()", "p.join()", "print('parent', p.exitcode)"]
+    if rc:
+        m.append("sys.exit(%d)" % rc)
+    files["main.py"] = "\n".join(m) + "\n"
+    return {"files": files, "features": ["fork", "fork-" + variant], "variant": variant, "exit": "fork-" + variant,
+            "rc": rc, "late": late, "heavy": variant == "mp"}
